@@ -291,8 +291,9 @@ def datatype_unit(v, res):
             for r_ in rows:
                 if r_.card[0] >= 1 and r_.name != skip:
                     setattr(f, r_.name.lower(), conform.comp_text(v, r_, ec))
-            if not f.children and rows and rows[0].name != skip:
-                setattr(f, rows[0].name.lower(), conform.comp_text(v, rows[0], ec))
+            usable = [r_ for r_ in rows if r_.card[1] != 0]      # max 0 = withdrawn
+            if not f.children and usable and usable[0].name != skip:
+                setattr(f, usable[0].name.lower(), conform.comp_text(v, usable[0], ec))
             return f
         res.evaluations += 1
         res.enumerated += 1
